@@ -16,6 +16,17 @@ CLAIMED = {
         technique="static evaluation of encoder/decoder tables + symbolic (affine) length and offset summaries, compared with a spec transcription (ast)",
         ref="4/C01",
     ),
+    "C03": dict(
+        level="other",
+        text="Exact-count framing decided structurally: AssociationSocket.recv(n) never asks the socket for more "
+        "than the remaining count on any path (typestate over the clamp), appends and counts exactly what it read and "
+        "exits only on count reached or EOF; _read_pdu_data reads exactly 6 then exactly pdu_length bytes, every short or "
+        "failed read is Evt17 and the length test dominates decoding; one event/PDU per call from a single reader.",
+        note="Trusted: CPython ast and socket.recv's contract (returns at most the requested number of bytes, b'' on EOF). "
+        "Not decided: timing of inter-chunk gaps (C08), TLS record buffering, kernel behaviour.",
+        technique="structural matching + typestate/dominance over a hand-built CFG (ast)",
+        ref="4/C03",
+    ),
     "C04": dict(
         level="proof",
         text="Finite and exhaustive: all 247 (event, state) pairs of TRANSITION_TABLE compared with a "
